@@ -90,7 +90,7 @@ def check(F, run):
             run.check(got is not None and zero(got - want), "R8.9", PATH, "entry-invariant:" + nm, F.loc(b),
                       "at loop entry %s = %s, expected %s (divided differences of the polynomial at the three start points)" % (nm, got, want), sample="entry: %s" % nm)
     # (1) one iteration
-    vals = dict(c07.constant_locals(F, b))
+    vals = dict(c07.constant_locals(F, b, cls=MInterp))
     vals.update(inv)
     try:
         lps = paths.explore(F, b, setup=c07.preset_all(b, vals), node=loop["body"], interp_cls=MInterp, limit=64)
